@@ -178,6 +178,12 @@ func c13NewcomerStep(x *engine.Exec) []engine.Failure {
 	prev, next := x.Prev.Snap(), x.Next.Snap()
 	w := x.W
 	switch x.Op.K {
+	case world.KReward:
+		if !w.Cfg.FullPipeline {
+			// module-only worlds allocate at once
+			ref.New = map[string]bool{}
+			ref.ViaUnbonded = false
+		}
 	case world.KBlock:
 		if x.Res.Err != nil {
 			return []engine.Failure{fail("endblock", "error", "block failed: %v", x.Res.Err)}
@@ -325,10 +331,37 @@ func init() {
 				return out
 			}
 			wc.Required = []string{"reward.allocations", "claim.with_positive_entitlement", "claim.after_weight_change"}
-			if tier == "thorough" {
-				return []*engine.Scenario{mk("c13-entitlement", []int{4, 0, 3, 2, 0}, 8), jailed, wc}
+			// an asset that earned rewards is emptied, deleted and whitelisted again with a warm-up period (the validators keep its
+			// old reward indices): a position opened during the new warm-up is paid nothing until rewards are allocated again
+			rcfg := world.DefaultConfig()
+			rcfg.RewardDelay = 2 * U
+			rcfg.Assets = []world.AssetCfg{{Denom: "aaa", Weight: "1", Min: "0", Max: "5", TakeRate: "0"}, {Denom: "bbb", Weight: "1", Min: "0", Max: "5", TakeRate: "0"}}
+			recreated := &engine.Scenario{
+				Property: "C13", Name: "c13-recreated-asset", Cfg: rcfg, Stores: world.ModuleStores,
+				Seeds: [][]world.Op{{opDel(0, 0, "aaa", "1000000"), opDel(1, 0, "bbb", "1000000"), opBlock(1), opReward(rewardDenom, "6000000"),
+					{K: world.KClaim, D: 0, V: 0, Denom: "aaa"}, {K: world.KUndelegateAll, D: 0, V: 0, Denom: "aaa"},
+					{K: world.KGovDelete, Denom: "aaa", Args: map[string]string{"signer": "authority"}},
+					{K: world.KGovCreate, Denom: "aaa", Args: govArgs("authority", "1", "0,5", "0", "1", 0, false)}}},
+				ClassNames: classNames, Budgets: tierPick(tier, []int{2, 0, 1, 3, 0}, []int{3, 0, 2, 4, 0}), MaxDepth: tierPick(tier, 5, 7),
+				NewRef: func(w *world.World, root *engine.Node) engine.Ref { return &newcomerRef{New: map[string]bool{}} },
+				Ops: func(n *engine.Node) []world.Op {
+					ops := []world.Op{
+						{K: world.KDelegate, D: 0, V: 0, Denom: "aaa", Amt: "1000000", Class: ClsUser},
+						{K: world.KDelegate, D: 2, V: 0, Denom: "aaa", Amt: "500000", Class: ClsUser},
+						{K: world.KBlock, Dt: int64(U), Class: ClsBlock}, {K: world.KBlock, Dt: int64(3 * U), Class: ClsBlock},
+					}
+					if atBlockStart(n) {
+						ops = append(ops, world.Op{K: world.KReward, Denom: rewardDenom, Amt: "6000000", Class: ClsEnv})
+					}
+					return ops
+				},
+				Step: c13NewcomerStep,
+				Required: []string{"newcomer.probed"},
 			}
-			return []*engine.Scenario{jailed, wc, mk("c13-entitlement", []int{3, 0, 2, 2, 0}, 5)}
+			if tier == "thorough" {
+				return []*engine.Scenario{mk("c13-entitlement", []int{4, 0, 3, 2, 0}, 8), jailed, wc, recreated}
+			}
+			return []*engine.Scenario{jailed, wc, recreated, mk("c13-entitlement", []int{3, 0, 2, 2, 0}, 5)}
 		},
 		Assumptions: []string{
 			"no value-changing events (take rates 0, no slashes): those are C12's; rewards in the bond denom; weights 1 (aaa) and 2 (bbb) on a shared validator; stakes of 2.5e5..1e6 base units so the 1e-18 index resolution is negligible",
